@@ -76,6 +76,21 @@ theorem derive_total (d : Def) :
     (genJson bindFresh d).scoped = true ∧ (genString bindFresh d).scoped = true :=
   ⟨genJson_scoped d, genString_scoped d⟩
 
+/-- **hygiene against the package, partial**: the calls of the generated bodies keep meaning the runtime helpers
+    PROVIDED no top-level function of the package the type is defined in is spelled like a helper
+    (`HelperFree tops`).  Partial because the hypothesis is needed: `name_resolution.rs` resolves the bare name the
+    derive emits to a definition of the current package before it looks at the builtins, and nothing rejects such
+    a definition — the examples below are the capture (known finding `helper-captured-by-package-function`). -/
+theorem derive_hygienic_partial (d : Def) (tops : List String) (h : ∀ f ∈ helperNames, f ∉ tops) :
+    (genJson bindFresh d).hygienic tops = true ∧ (genString bindFresh d).hygienic tops = true :=
+  ⟨genJson_hygienic d tops h, genString_hygienic d tops h⟩
+
+example : (genJson bindFresh (.struct "S" 0 [("b", .bool), ("n", .int 32 true)])).hygienic ["bool_to_json"] = false ∧
+    (genJson bindFresh (.enum "E" 0 [("A", [.string])])).hygienic ["show", "json_escape_string"] = false ∧
+    (genString bindFresh (.struct "S" 0 [("n", .int 8 false)])).hygienic ["uint8_to_string"] = false ∧
+    (genJson bindFresh (.struct "S" 0 [("b", .bool), ("n", .int 32 true)])).hygienic ["bool_to_json_of", "show"] = true := by
+  decide +kernel
+
 /-- **the generated code computes the value functions**: the body of the arm the derive generates
     for a struct (resp. for the value's variant), evaluated under that arm's bindings — literals,
     `+`, the runtime helpers by their meaning (`helperSem`), the field types' own derived methods —
@@ -133,6 +148,82 @@ example : derivesTrait ["#[derive(ToString)]".toList, "#[foo]".toList, "#[ deriv
     derivesTrait ["#[derive(ToString)]".toList] "ToJson".toList = false ∧
     derivesTrait ["#![derive(ToJson)]".toList, "#[derive()]".toList, "#[derive]".toList, "#[derived(ToJson)]".toList,
       "#[derive(ToJson)(ToString)]".toList, "#[derive(tojson)]".toList] "ToJson".toList = false := by decide
+
+/-! ### comments in and after an attribute
+
+`attrText` mirrors `lower_attributes` (the text of the attribute's syntax node without its comment tokens);
+the node holds every trivia token up to the next token of the file, so a comment written after the
+attribute on its line, or on the lines between the attribute and the item, is inside it. -/
+
+/-- code without string literals and without `/` is copied unchanged, whatever follows -/
+theorem strip_code_plain_append (a r : List Char) (h : ∀ c ∈ a, c ≠ '"' ∧ c ≠ '/') :
+    stripComments .code (a ++ r) = a ++ stripComments .code r := by
+  induction a with
+  | nil => rfl
+  | cons c cs ih =>
+    have h12 := h c (by simp)
+    have ih' := ih (fun d hd => h d (by simp [hd]))
+    simp only [List.cons_append, stripComments, h12.1, h12.2, if_false, ih']
+
+theorem strip_comment_line (c b : List Char) (h : ∀ x ∈ c, x ≠ '\n') :
+    stripComments .comment (c ++ '\n' :: b) = '\n' :: stripComments .code b := by
+  induction c with
+  | nil => simp [stripComments]
+  | cons x xs ih =>
+    have hx := h x (by simp)
+    have ih' := ih (fun d hd => h d (by simp [hd]))
+    simp only [List.cons_append, stripComments, hx, if_false, ih']
+
+theorem strip_comment_end (c : List Char) (h : ∀ x ∈ c, x ≠ '\n') : stripComments .comment c = [] := by
+  induction c with
+  | nil => rfl
+  | cons x xs ih =>
+    have hx := h x (by simp)
+    have ih' := ih (fun d hd => h d (by simp [hd]))
+    simp only [stripComments, hx, if_false, ih']
+
+/-- **a comment is not part of the attribute**: the text `derive.rs` reads is the same with and without a
+    `// …` comment anywhere after string-free code `a` (in particular after the closing `]`, or between two
+    targets); what follows the comment's line (`b`) is arbitrary -/
+theorem attr_comment_invisible (a c b : List Char) (ha : ∀ x ∈ a, x ≠ '"' ∧ x ≠ '/') (hc : ∀ x ∈ c, x ≠ '\n') :
+    attrText (a ++ '/' :: '/' :: c ++ '\n' :: b) = attrText (a ++ '\n' :: b) := by
+  unfold attrText
+  rw [show a ++ '/' :: '/' :: c ++ '\n' :: b = a ++ ('/' :: '/' :: (c ++ '\n' :: b)) by simp]
+  rw [strip_code_plain_append a _ ha, strip_code_plain_append a _ ha]
+  simp only [stripComments, if_true, if_false, show ('/' : Char) ≠ '"' by decide, show ('\n' : Char) ≠ '"' by decide,
+    show ('\n' : Char) ≠ '/' by decide]
+  rw [strip_comment_line c b hc]
+
+/-- … also when the node ends inside the comment (end of file) -/
+theorem attr_comment_at_end (a c : List Char) (ha : ∀ x ∈ a, x ≠ '"' ∧ x ≠ '/') (hc : ∀ x ∈ c, x ≠ '\n') :
+    attrText (a ++ '/' :: '/' :: c) = a := by
+  unfold attrText
+  rw [strip_code_plain_append a _ ha]
+  simp only [stripComments, if_true, if_false, show ('/' : Char) ≠ '"' by decide]
+  rw [strip_comment_end c hc]; simp
+
+theorem attr_plain (a : List Char) (ha : ∀ x ∈ a, x ≠ '"' ∧ x ≠ '/') : attrText a = a := by
+  have := strip_code_plain_append a [] ha
+  simpa [attrText, stripComments] using this
+
+/-- which traits an item derives does not depend on the comments written in or after its attributes -/
+theorem derive_attrs_comment (a c b : List Char) (as : List (List Char)) (tr : List Char)
+    (ha : ∀ x ∈ a, x ≠ '"' ∧ x ≠ '/') (hc : ∀ x ∈ c, x ≠ '\n') :
+    derivesTraitSrc ((a ++ '/' :: '/' :: c ++ '\n' :: b) :: as) tr = derivesTraitSrc ((a ++ '\n' :: b) :: as) tr := by
+  simp only [derivesTraitSrc, List.map_cons, attr_comment_invisible a c b ha hc]
+
+theorem derive_attrs_union_src (as bs : List (List Char)) (tr : List Char) :
+    derivesTraitSrc (as ++ bs) tr = (derivesTraitSrc as tr || derivesTraitSrc bs tr) := by
+  simp only [derivesTraitSrc, List.map_append, derive_attrs_union]
+
+example : derivesTraitSrc ["#[derive(ToJson)] // serialise me\n".toList] "ToJson".toList = true ∧
+    derivesTraitSrc ["#[derive(ToJson)]\n// A point.\n".toList] "ToJson".toList = true ∧
+    derivesTraitSrc ["#[derive(ToJson)] // #[derive(ToString)]\n".toList] "ToString".toList = false ∧
+    derivesTraitSrc ["#[derive(ToJson, // json\n    ToString)]\n".toList] "ToString".toList = true ∧
+    derivesTraitSrc ["#[derive(ToJson // , ToString\n)]\n".toList] "ToString".toList = false ∧
+    derivesTraitSrc ["#[doc = \"// no comment\"] ".toList, "#[derive(ToJson)]\n".toList] "ToJson".toList = true ∧
+    -- what `derive.rs` made of the node text before `lower_attributes` dropped the comments
+    derivesTrait ["#[derive(ToJson)] // serialise me\n".toList] "ToJson".toList = false := by decide
 
 /-! ### the defects the proofs point at, as examples -/
 
